@@ -717,8 +717,16 @@ pub fn render(p: &Program, lay: &Layout, rng: &mut Rng) -> Rendered {
                 spans[ii] = Some((start, text.len() - start));
             }
         }
-        if w && rng.chance(1, 3) {
-            // trailing comment, always preceded by whitespace
+        let ends_in_a_word = match item {
+            Item::Break | Item::End | Item::LabelBreak(_) => true,
+            Item::Stmt { stmt, .. } => matches!(stmt, Stmt::Ret | Stmt::Rets | Stmt::Rti | Stmt::Alias(_)),
+            _ => false,
+        };
+        if w && ends_in_a_word && rng.chance(1, 6) {
+            // a comment may follow a directive or mnemonic without a blank in between
+            text.push_str(comment(rng));
+        } else if w && rng.chance(1, 3) {
+            // trailing comment, preceded by whitespace
             text.push_str(rng.s(&[" ", "\t", "  "]));
             text.push_str(comment(rng));
         } else if w && rng.chance(1, 5) {
@@ -764,15 +772,20 @@ pub fn is_plain_label(name: &str) -> bool {
         return false;
     }
     if lower.starts_with("0x") {
-        return false;
+        let rest = &lower[2..];
+        return !rest.is_empty() && rest.chars().any(|c| !c.is_ascii_hexdigit()) && rest.chars().take_while(|c| c.is_ascii_hexdigit()).count() <= 4;
     }
     // register spellings and anything the lexer could read as a hex literal
     let b = lower.as_bytes();
     if b[0] == b'r' && b.len() >= 2 && b[1].is_ascii_digit() {
         return false;
     }
+    // `x...` / `0x...` is a hex literal when what follows are hex digits (with an optional sign); with any
+    // other identifier character in it the token falls back to an identifier
     if b[0] == b'x' {
-        return false;
+        let rest = &lower[1..];
+        // (a run of more than four hex digits overflows before the odd character is seen: an error, not a label)
+        return !rest.is_empty() && rest.chars().any(|c| !c.is_ascii_hexdigit()) && rest.chars().take_while(|c| c.is_ascii_hexdigit()).count() <= 4;
     }
     true
 }
@@ -788,6 +801,8 @@ const LABEL_PARTS: &[&str] = &[
     "dup", "proc", "endp", "_start", "_main", "exit", "syscall", "int", "iret", "jz", "jnz", "bra", "beq",
     // labels to the assembler, numbers or registers to a grammar that knows b/o prefixes and r0-r7
     "b1", "b10", "B0", "o7", "o17", "b_1", "o_7", "b2", "r10", "R07x", "r8", "R77", "100", "7", "007", "12294", "10", "2", "0", "1", "20", "255", "256", "7up", "0b1", "00",
+    // x-prefixed names that are no hex literals, among them the extension's mnemonics behind the prefix
+    "xpush", "Xpop", "xcall", "xrets", "xval", "x_1", "0xcall", "xhalt", "xyz", "0Xrets",
 ];
 
 pub fn gen_label(rng: &mut Rng, taken: &[String]) -> String {
@@ -815,6 +830,8 @@ const STR_BODIES: &[&str] = &[
     "a string literal that is longer than the cell", "sixteen chars ok",
     // control characters written raw inside the quotes (not as escapes)
     "a\tb", "\ttab first", "bell\u{7}!", "form\u{c}feed",
+    // escapes nobody defined: the backslash stays, followed by the character
+    "a\\eb", "nul\\0", "q\\'x", "\\q\\q\\q", "\\x41",
     // characters whose case mapping changes their UTF-8 length
     "273 \u{212a}", "\u{130}\u{130}\u{130}", "10 k\u{2126} \u{1e9e}",
 ];
